@@ -30,7 +30,7 @@ def keyof(lit):
 
 SCALARS = [b'1', b'1.0', b'-0', b'0', b'-1.50', b'12', b'true', b'false', b'null', b'"a"', b'"\\u0061"', b'"a.b"', b'"1"', b'"1.0"',
            b'"true"', b'""', b'" "', b'"\\n"', b'"\\u000a"', b'"\\ud83d\\ude00"', b'"\xf0\x9f\x98\x80"', b'"\\ud83d"', b'"\\ufffd"',
-           b'"\xc3\xa9"', b'"\\u00e9"', b'"\\u00E9"', b'"//"', b'"/*"', b'"]"', b'","', b'"\\""', b'"\\/"', b'"/"', b'"e"', b'"1e5"']
+           b'"\xc3\xa9"', b'"\\u00e9"', b'"\\u00E9"', b'"//"', b'"/*"', b'"]"', b'","', b'"\\""', b'"\\/"', b'"/"', b'"e"', b'"1e5"', b'"\\\\"', b'"C:\\\\"', b'"a.b\\\\"', b'"\\\\\\""', b'"\\u005c"']
 BAD_SCALARS = [b'1e5', b'1E5', b'1.', b'.5', b'01', b'-', b'+1', b'tru', b'True', b'nul', b'"a', b'a"', b"'a'", b'"\\x"', b'"\\u12"', b'"\t"',
                b'[1]', b'{}', b'@e', b'1 2']
 SEPS = [b'', b' ', b'\n', b'\r\n', b'\t', b' // c\n', b'//\n', b' /* c */ ', b'/**/', b'/* a\n b */', b' // [1, 2]\n', b'/* ] */']
